@@ -9,6 +9,10 @@ through the real response parser into the real `Listener`).
 Correspondence: same command line and the same consumed answers to Model/Ctl.lean (exit status, calls made with
 arguments, everything written with ctl.output, whether anything went to stderr).
 Monitors: the property statement evaluated on the implementation's observables, independent of the model.
+End-to-end level (c20_e2e.py): the same cases once more with the real ServerProxy, SupervisorTransport, HTTP channel,
+XML-RPC handler, marshaller and deferred-response producer between the client and the answers (given at once or by a deferred
+callback, faults included), compared with the direct run and judged by the same monitors; and the real rpcinterface over
+scripted processes, what it answered being recorded above the XML-RPC layer.
 World part (c20_world.py): the proxy is backed by a simulated supervisord with a state of its own (groups, processes in
 states, pending configuration changes or none, failures, shutting down) that answers with the semantics of
 rpcinterface.py; the statement is evaluated on (command line, world) -- which names are unknown, which processes the
@@ -24,8 +28,14 @@ LEAN_PROPS = 'SupervisorModel.Props.C20'
 DRIVER = 'drv_c20'
 GENERATED = ['Ctl']
 TRUSTED = [
-    "the scripted proxy stands for xmlrpclib.ServerProxy + SupervisorTransport: a call either returns the "
-    "unmarshalled value or raises Fault / ProtocolError / socket.error (marshalling itself is not modelled)",
+    "scripted / world level: the scripted proxy stands for xmlrpclib.ServerProxy + SupervisorTransport: a call either returns "
+    "the unmarshalled value or raises Fault / ProtocolError / socket.error.  End-to-end level (c20_e2e.py): nothing stands for "
+    "them -- the real ServerProxy, SupervisorTransport, deferring_http_channel, supervisor_xmlrpc_handler, xmlrpc_marshal and "
+    "DeferredXMLRPCResponse are run (in-process socketpair; only TCP itself is absent); the Lean model does not cover that layer "
+    "(C12's model and theorems do: raised_fault_is_answered_as_fault, every_request_on_a_connection_is_dispatched)",
+    "end-to-end level: ProtocolError 401 and socket errors of a script are produced below the XML-RPC layer (a canned 401 "
+    "response / the connection's getresponse raising); an HTTP 500 is the real one (the registered method raises); the "
+    "real-interface sublevel uses supervisor.tests.base dummy processes whose state follows a script (props.c12.WaitWorld)",
     "tail -f / maintail -f: the HTTP transport is one scripted response pushed through the real "
     "http_client.HTTPHandler parser and Listener; sockets, asyncore.loop and Ctrl-C are not modelled",
     "not modelled: interactive mode (prompts, re-authentication), help, fg, open, quit/exit/EOF, readline completion "
@@ -55,7 +65,14 @@ RULE = ("a case = (command line, answers the proxy gives in the order asked); sy
         "groups; shutting down) x the 12 name-taking actions (start stop restart signal status pid clear add remove "
         "update tail fg) x name lists built from known and unknown names (each alone, known+unknown in both orders, two "
         "unknown, two known, known-unknown-known, a name twice, all, unknown+all), plus random worlds (45 % with a "
-        "pending configuration change, 4 % shutting down) with random name lists (about half the names unknown)")
+        "pending configuration change, 4 % shutting down, 5 % reporting another API version) with random name lists (about half "
+        "the names unknown); wrong API version: 16 version strings on both sides of the client's (older, newer, newer but lower as "
+        "a string, other spellings) at every getVersion position, and three fixed worlds; end-to-end level: the whole corpus (four "
+        "delivery plans each), every all-ok base line, half of the single-failure and systematic world cases and a fifth of the "
+        "random ones are run once more through the real XML-RPC layer, every answer given at once or by a deferred callback that "
+        "answers (or raises its fault) at poll 0-3; plus the real rpcinterface over 1-3 scripted processes (states after "
+        "spawn()/stop(), a trajectory of states per main-loop iteration, spawn errors) for start/stop/restart/status/pid/signal/"
+        "clear with known, group, all and unknown names")
 
 URL = 'http://localhost:65532'
 API = '3.0'
@@ -215,7 +232,7 @@ def scripted_handler_class():
 _OPTIONS = None
 
 
-def make_controller(run):
+def make_controller(run, proxy=None):
     global _OPTIONS
     from supervisor import supervisorctl, http_client
     from supervisor.options import ClientOptions
@@ -230,7 +247,7 @@ def make_controller(run):
         _OPTIONS = o
         http_client.HTTPHandler = scripted_handler_class()
     o = _OPTIONS
-    o.getServerProxy = lambda: Proxy(run)
+    o.getServerProxy = proxy or (lambda: Proxy(run))
     return supervisorctl.Controller(o, stdout=io.StringIO())
 
 
@@ -269,11 +286,20 @@ class Result:
     pass
 
 
-def execute(line, source):
-    """run the real Controller.onecmd(line); returns Result(exit, out, stderr, log, escaped, left)"""
+def execute(line, source, e2e=None, real=None):
+    """run the real Controller.onecmd(line); returns Result(exit, out, stderr, log, escaped, left)
+    e2e:  None -- the proxy hands the answers over directly;  a list -- the end-to-end level (c20_e2e.py): the answers are given
+          by a namespace registered with the real XML-RPC handler, answer k at once (None) or by a deferred callback at poll e2e[k]
+    real: (real interface object, ticks) -- end to end against that interface; the log is what it answered"""
     global CUR
     run = Run(source)
-    ctl = make_controller(run)
+    proxy = None
+    if e2e is not None or real is not None:
+        from props import c20_e2e as E
+        import props.c20 as B
+        ns = E.recorded_ns(real[0], run) if real is not None else E.scripted_ns_class()(run, list(e2e), B)
+        proxy = E.proxy_factory(B, run, E.make_handler(ns), real[1] if real is not None else None)
+    ctl = make_controller(run, proxy)
     CUR = run
     so, se = sys.stdout, sys.stderr
     sys.stdout, sys.stderr = _Out(), _Out()
@@ -291,6 +317,14 @@ def execute(line, source):
     finally:
         sys.stdout, sys.stderr = so, se
         CUR = None
+        if proxy is not None:
+            E.close_all(run)
+    r.more_calls = getattr(run, 'more_calls', None)
+    r.deferred = getattr(run, 'deferred', 0)
+    r.connections = getattr(run, 'connections', 0)
+    r.requests_on_wire = getattr(run, 'requests_on_wire', 0)
+    if real is not None:
+        run.log = [(m, a, ans if ans is not None else ('H', 500)) for m, a, ans in run.log]
     r.exit = ctl.exitstatus
     r.raw = ctl.stdout.getvalue()
     r.out = canon_out(r.raw)
@@ -433,11 +467,15 @@ FAILWORDS = ('ERROR', 'error:', 'Error', 'refused connection', 'no such file', '
              'No such process', 'has problems')
 
 
-def monitor(ctx, r, script):
-    """evaluate the statement on one executed case; reports through ctx.violation"""
-    inp = {'line': r.line, 'script': [list(a) for a in script]}
+def monitor(ctx, r, script, level=None):
+    """evaluate the statement on one executed case; reports through ctx.violation
+    level: None (answers handed over by the scripted proxy) | {'e2e': plan} | {'real': process scripts} (c20_e2e.py)"""
+    inp = dict({'line': r.line, 'script': [list(a) for a in script]}, **(level or {}))
+    via = '' if not level else ' (through the real XML-RPC layer: %s)' % (
+        'answers at once (-) / deferred, at poll d: %s' % ' '.join('-' if d is None else str(d) for d in level['e2e'][:len(script)]) if 'e2e' in level
+        else 'the real rpcinterface over processes following %r' % (level['real'],))
     def bad(kind, what):
-        ctx.violation(kind, what + ' [line %r, exit %d, output %r]' % (r.line, r.exit, r.raw[:300]), inp)
+        ctx.violation(kind, what + via + ' [line %r, exit %d, output %r]' % (r.line, r.exit, r.raw[:300]), inp)
     if r.escaped:
         bad('exception-escaped-onecmd:' + r.escaped, 'an exception left Controller.onecmd instead of an error line')
         return
@@ -870,12 +908,121 @@ def random_line(rng):
     return rng.choice(['', '', ' ']) + act + (sep if words else rng.choice(['', ' '])) + sep.join(words) + rng.choice(['', '', ' '])
 
 
+# ---------------------------------------------------------------------------------------------------
+# the end-to-end level (c20_e2e.py): the same command line and the same answers through the real XML-RPC layer
+def gen_plan(rng, n):
+    """how each of the n answers is given: None = at once, d = by a deferred callback that answers at poll d"""
+    x = rng.random()
+    if x < 0.15:
+        return [None] * n
+    if x < 0.35:
+        return [rng.choice([0, 0, 1, 2, 3]) for _ in range(n)]
+    return [rng.choice([None, None, 0, 1, 2]) for _ in range(n)]
+
+
+def e2e_case(ctx, line, script, r0, plan, wj=None):
+    """r0: the case as executed with the answers handed over directly.  The real client, marshalling, HTTP channel, XML-RPC
+    handler and deferred-response producer in between must not change what the client reports: same requests, same lines,
+    same exit status; and the statement's monitors are evaluated on this run as on the direct one"""
+    wi = None
+    if wj is not None:
+        from props import c20_world as W
+        wi = W.World.from_json(wj)
+        src = wi.source()
+    else:
+        src = fixed_source(script)
+    r = execute(line, src, e2e=plan)
+    cmd, _ = parse_cmd(line)
+    action = cmd if cmd in ACTIONS or cmd == 'fg' else '(other)'
+    ctx.count('e2e:cases'); ctx.count('e2e:action:' + action); ctx.count('e2e:requests-on-the-wire', r.requests_on_wire)
+    ctx.count('e2e:connections', r.connections); ctx.count('e2e:deferred-answers', r.deferred)
+    for (m, _, a), d in zip(r.log, plan):
+        if m != 'GET' and a[0] not in ('E',) and not (a[0] == 'H' and a[1] != 500):
+            ctx.count('e2e:answer:%s:%s' % (a[0] + ('%d' % a[1] if a[0] == 'H' else ''), 'at-once' if d is None else 'deferred'))
+    if r.requests_on_wire > r.connections:
+        ctx.count('e2e:cases-reusing-a-connection')
+    ctx.case_done(('e2e', line, tuple(map(repr, script)), tuple(plan), repr(wj)), nontrivial=r.requests_on_wire > 0)
+    level = {'e2e': list(plan)}
+    consumed = [a for _, _, a in r.log]
+    if r.more_calls is not None or impl_line(r) != impl_line(r0):
+        inp = dict({'line': line, 'script': [list(a) for a in script]} if wj is None else {'line': line, 'world': wj}, **level)
+        ctx.violation('e2e-differs-from-direct:' + action,
+                      'the same answers given through the real XML-RPC layer (at once - / deferred at poll d: %s) make the client report something else: '
+                      '%s; with the answers handed over directly: %s [line %r]' % (
+                          ' '.join('-' if d is None else str(d) for d in plan[:len(script)]),
+                          impl_line(r) + (' and a further request %s%r' % r.more_calls if r.more_calls else ''), impl_line(r0), line), inp)
+    if wj is None:
+        monitor(ctx, r, consumed, level)
+    else:
+        monitor(ctx, r, consumed, dict(level, world=wj))
+        from props import c20_world as W
+        W.monitor_world(ctx, r, line, wj, wi, level)
+    return r
+
+
+REAL_NAMES = ['grp:p0', 'grp:p1', 'grp:*', 'all', 'grp:nosuch', 'nosuch', 'p0', 'grp:', 'nosuch:*']
+# seeded change C20-8 (demo.py): `start grp:flaky`, flaky being spawned all right but leaving STARTING for BACKOFF between two
+# polls of startProcess's callback: the fault comes from the deferred phase
+REAL_CORPUS = [
+    ('start grp:flaky', [{'name': 'flaky', 'initial': 0, 'on_spawn': 10, 'on_stop': 40, 'traj': [[0, 30]]}]),
+    ('start grp:good', [{'name': 'good', 'initial': 0, 'on_spawn': 10, 'on_stop': 40, 'traj': [[0, 20]]}]),
+    ('start grp:nosuch', [{'name': 'good', 'initial': 0, 'on_spawn': 10, 'on_stop': 40, 'traj': [[0, 20]]}]),
+    ('start grp:flaky grp:good', [{'name': 'flaky', 'initial': 0, 'on_spawn': 10, 'on_stop': 40, 'traj': [[0, 10], [0, 30]]},
+                                  {'name': 'good', 'initial': 0, 'on_spawn': 10, 'on_stop': 40, 'traj': [[0, 10], [0, 20]]}]),
+    ('restart grp:flaky', [{'name': 'flaky', 'initial': 20, 'on_spawn': 10, 'on_stop': 40, 'traj': [[0, 0], [0, 10], [0, 30]]}]),
+    ('start grp:se', [{'name': 'se', 'initial': 0, 'on_spawn': 10, 'on_stop': 40, 'traj': [[0, 10], [1, 30]]}]),
+    ('stop grp:slow', [{'name': 'slow', 'initial': 20, 'on_spawn': 10, 'on_stop': 40, 'traj': [[0, 40], [0, 40], [0, 0]]}]),
+    ('start all', [{'name': 'flaky', 'initial': 0, 'on_spawn': 10, 'on_stop': 40, 'traj': [[0, 30]]},
+                   {'name': 'good', 'initial': 0, 'on_spawn': 10, 'on_stop': 40, 'traj': [[0, 20]]}]),
+]
+
+
+def real_case(batch, line, scripts, tag):
+    """one command line against the REAL SupervisorNamespaceRPCInterface over processes that follow `scripts` (props.c12.WaitWorld:
+    spawn()/stop() put a process into on_spawn/on_stop, main-loop iteration k while an answer is pending into traj[k]), through
+    the real XML-RPC layer.  What the interface answered is recorded above that layer; the monitors (and the model) judge the
+    client against that record"""
+    from props import c12
+    ctx = batch.ctx
+    w = c12.WaitWorld(scripts)
+    r = execute(line, lambda m, a, k: None, real=(w.iface, w.tick))
+    script = [a for _, _, a in r.log]
+    cmd, _ = parse_cmd(line)
+    ctx.count('tag:' + tag); ctx.count('real:action:' + cmd); ctx.count('real:exit:%d' % r.exit)
+    ctx.count('real:deferred-answers', r.deferred); ctx.count('real:requests-on-the-wire', r.requests_on_wire)
+    for m, _, a in r.log:
+        ctx.count('real:answer:' + a[0] + (':' + fname(a[1]) if a[0] == 'F' else ''))
+    ctx.case_done(('real', line, repr(scripts)), nontrivial=len(r.log) > 0)
+    monitor(ctx, r, script, {'real': scripts})
+    if not any(a == ('H', 500) for a in script):
+        batch.ops.append((line, script, 0))
+        batch.impl.append(impl_line(r, 0))
+    return r
+
+
+def gen_real(rng):
+    from props import c12
+    n = rng.randrange(1, 4)
+    action = rng.choice(['start', 'start', 'start', 'stop', 'stop', 'restart', 'restart', 'status', 'pid', 'signal', 'clear'])
+    kind = {'start': 'start', 'stop': 'stop', 'restart': 'stop'}.get(action)
+    scripts = [c12.gen_script(rng, 'p%d' % i, kind, maxlen=5) for i in range(n)]
+    if rng.random() < 0.5:          # the usual course: STARTING / STOPPING for a while, then some end state
+        for sc in scripts:
+            sc['on_spawn'], sc['on_stop'] = 10, 40
+    if rng.random() < 0.85:         # ... in which the process stays (a call that waits for ever is C12's subject, not C20's)
+        for sc in scripts:
+            sc['traj'].append([0, rng.choice([20, 30, 200, 100, 0] if action == 'start' else [0, 100, 200])])
+    known = ['grp:p%d' % i for i in range(n)] * 2 + ['grp:*', 'all', 'grp:']
+    names = [rng.choice(known if rng.random() < 0.8 else REAL_NAMES) for _ in range(rng.choice([1, 1, 2, 3]))]
+    return action + (' HUP ' if action == 'signal' else ' ') + ' '.join(names), scripts
+
+
 class Batch:
     def __init__(self, ctx):
         self.ctx = ctx
         self.ops, self.impl = [], []
 
-    def case(self, line, source, tag, script_len=None):
+    def case(self, line, source, tag, script_len=None, e2e=0.0):
         ctx = self.ctx
         r = execute(line, source)
         if r.ended:
@@ -897,6 +1044,8 @@ class Batch:
         monitor(ctx, r, script)
         self.ops.append((line, script, left))
         self.impl.append(impl_line(r, left))
+        if e2e and script and ctx.rng.random() < e2e:
+            e2e_case(ctx, line, script, r, gen_plan(ctx.rng, len(script)))
         return r
 
     def flush(self):
@@ -907,7 +1056,7 @@ class Batch:
         self.ops, self.impl = [], []
 
 
-def run_fixed(batch, line, script, tag):
+def run_fixed(batch, line, script, tag, plans=None):
     """a case with a given script: the model receives the whole script (left = unconsumed answers)"""
     r = execute(line, fixed_source(script))
     if r.ended:
@@ -920,6 +1069,10 @@ def run_fixed(batch, line, script, tag):
     left = len(script) - len(consumed)
     batch.ops.append((line, script, left))
     batch.impl.append(impl_line(r, left))
+    if consumed and plans != ():
+        n = len(consumed)
+        for plan in (plans if plans is not None else ([None] * n, [0] * n, [2] * n, gen_plan(ctx.rng, n))):
+            e2e_case(ctx, line, consumed, r, list(plan))
     return r
 
 
@@ -938,20 +1091,20 @@ def run(ctx):
     full = ctx.tier == 'thorough' or ctx.boost > 1
     lines = BASE_LINES
     for line in lines:
-        base = batch.case(line, lazy_source(rng, 0.0), 'all-ok')
+        base = batch.case(line, lazy_source(rng, 0.0), 'all-ok', e2e=1.0)
         if base is None:
             continue
         okscript = [a for _, _, a in base.log]
         for k, (m, a, _) in enumerate(base.log):
             for bad in bad_answers(rng, m, a, full):
                 ov = dict(enumerate(okscript[:k])); ov[k] = bad
-                batch.case(line, lazy_source(rng, 0.0, ov), 'single-failure')
+                batch.case(line, lazy_source(rng, 0.0, ov), 'single-failure', e2e=E2E_SYSTEMATIC)
     batch.flush()
     # 4. random
     for i in range(ctx.n(3000, 60000)):
         line = random_line(rng)
         p_bad = rng.choice([0.0, 0.0, 0.1, 0.3])
-        r = batch.case(line, lazy_source(rng, p_bad), 'random')
+        r = batch.case(line, lazy_source(rng, p_bad), 'random', e2e=E2E_RANDOM)
         if i == 5 and r is not None:
             ctx.sample({'line': line, 'script': [tok(a) for _, _, a in r.log], 'impl': batch.impl[-1]})
         if len(batch.ops) >= 5000:
@@ -961,20 +1114,31 @@ def run(ctx):
     #    lists x worlds that include the no-op situations (no processes, no pending configuration change, ...)
     from props import c20_world as W
     for line, wj in WORLD_CORPUS:
-        world_case(batch, 'world-corpus', W.World.from_json(wj), line)
+        world_case(batch, 'world-corpus', W.World.from_json(wj), line, e2e=1.0)
     for tag, w, line in W.systematic(full):
-        world_case(batch, tag, w, line)
+        world_case(batch, tag, w, line, e2e=E2E_SYSTEMATIC)
     batch.flush()
     for i in range(ctx.n(2500, 40000)):
         w = W.random_world(rng)
         for _ in range(rng.choice([1, 2, 3])):
-            world_case(batch, 'world-random', w, W.random_line(rng, w))
+            world_case(batch, 'world-random', w, W.random_line(rng, w), e2e=E2E_RANDOM)
         if len(batch.ops) >= 5000:
             batch.flush()
     batch.flush()
+    # 6. end to end against the real rpcinterface over scripted processes (deferred answers that end in faults included)
+    for line, scripts in REAL_CORPUS:
+        real_case(batch, line, scripts, 'real-corpus')
+    for i in range(ctx.n(400, 6000)):
+        line, scripts = gen_real(rng)
+        real_case(batch, line, scripts, 'real-random')
+    batch.flush()
 
 
-def world_case(batch, tag, w, line):
+E2E_SYSTEMATIC = 0.5      # share of the systematic cases that are run once more through the real XML-RPC layer
+E2E_RANDOM = 0.2
+
+
+def world_case(batch, tag, w, line, e2e=0.0, plan=None):
     """one command line against a fresh copy of world w: the scripted monitors and the correspondence on the answers
     consumed, and the statement evaluated on (line, world)"""
     from props import c20_world as W
@@ -993,6 +1157,8 @@ def world_case(batch, tag, w, line):
         r = batch.case(line, wi.source(), tag)
     if r is not None:
         W.monitor_world(ctx, r, line, wj, wi)
+        if r.log and cmd != 'fg' and (plan is not None or (e2e and ctx.rng.random() < e2e)):
+            e2e_case(ctx, line, [a for _, _, a in r.log], r, plan if plan is not None else gen_plan(ctx.rng, len(r.log)), wj)
 
 
 # world regression corpus: (line, world as JSON) -- seeded change C20-4: `update <unknown group>` while the server
@@ -1024,16 +1190,21 @@ WORLD_CORPUS = [
 
 def replay(ctx, data):
     inp = data['input']
+    if 'real' in inp:
+        batch = Batch(ctx)
+        real_case(batch, inp['line'], inp['real'], 'replay')
+        batch.flush()
+        return
     if 'world' in inp:
         from props import c20_world as W
         batch = Batch(ctx)
-        world_case(batch, 'replay', W.World.from_json(inp['world']), inp['line'])
+        world_case(batch, 'replay', W.World.from_json(inp['world']), inp['line'], plan=inp.get('e2e'))
         batch.flush()
         return
     script = [tuple(tuple(x) if isinstance(x, list) and x and not isinstance(x[0], list) else x for x in a) for a in inp['script']]
     script = [_retuple(a) for a in inp['script']]
     batch = Batch(ctx)
-    run_fixed(batch, inp['line'], script, 'replay')
+    run_fixed(batch, inp['line'], script, 'replay', plans=[inp['e2e']] if inp.get('e2e') is not None else ())
     batch.flush()
 
 
@@ -1052,7 +1223,9 @@ def _retuple(a):
 TECHNIQUE = ("Lean 4 theorems over an executable model of Controller.onecmd and the 17 actions whose fault comparisons, "
              "exit-status constants, tolerated-fault arguments and wording tables are regenerated from supervisorctl.py; "
              "differential correspondence against the real Controller with a scripted proxy; independent monitors, "
-             "incl. the statement evaluated against a simulated supervisord with its own state (c20_world.py)")
+             "incl. the statement evaluated against a simulated supervisord with its own state (c20_world.py); an end-to-end "
+             "level (c20_e2e.py): the same cases through the real ServerProxy / SupervisorTransport / HTTP channel / XML-RPC handler / "
+             "deferred-response producer, differential against the direct run (kind e2e-differs-from-direct) and under the same monitors")
 LEVEL_TEXT = ("proved for every action, argument string and answer script of the model, without bound: "
               "failure_exit_nonzero (exit 0 => no request refused/failed and arguments well-formed) and all_ok_exit_zero "
               "(well-formed arguments and every request succeeded, incl. the four tolerated answers => exit 0), "
@@ -1065,5 +1238,6 @@ LEVEL_TEXT = ("proved for every action, argument string and answer script of the
               "update_fault_loses_remaining_groups (F47, open); "
               "the model is tied to supervisorctl.py by regenerated comparisons/constants/tables and run against the real "
               "Controller on a systematic single-failure enumeration plus random scripts")
-LEVEL_NOTE = "trusts Lean's kernel, extract.py, the scripted proxy as a stand-in for the XML-RPC transport; see TRUSTED"
+LEVEL_NOTE = ("trusts Lean's kernel, extract.py; the model takes the answers as the client's XML-RPC library hands them over -- the layer "
+              "between rpcinterface and the client is exercised end to end (monitors, differential), not modelled here; see TRUSTED")
 DESIGN_REF = "DESIGN.md section 6, C20"
